@@ -37,8 +37,8 @@ Array::Array(const Array &other)
 {}
 
 void Array::copyData(const Array &other) {
-    for (size_t i = 0; i < data.size(); i++) {
-        data[i] = std::make_unique<PSC::Variable>(*(other.data[i]), other.data[i]->parent);
+    for (size_t i = 0; i < data.size() && i < other.data.size(); i++) {
+        data[i]->set(&other.data[i]->get<PSC::Value>(), true);
     }
 }
 
